@@ -416,8 +416,12 @@ def e4_foreign_content(run):
               if isinstance(x, ast.Name)}
         used = {x.id for a in c.args for x in ast.walk(a)
                 if isinstance(x, ast.Name)}
+        # no test made inside the loop decides whether a child is kept
+        inner = [unparse(e) for e, pol, bn in cfg.guards(nd.id)
+                 if any(any(x is cfg.nodes[bn].ast for x in ast.walk(st))
+                        for lp in inl for st in lp.ast.body)]
         ok = call_name(c) == "append" and bool(inl) and bool(lv & used) and \
-            not _value_guards(cfg, nd.id, lv)
+            not _value_guards(cfg, nd.id, lv) and not inner
         run.check(ok, "E4", key,
                   "each child is appended as it is met, in document order",
                   "children of a foreign element are not stored one by one "
